@@ -1,6 +1,8 @@
 package main
 
 import (
+	"encoding/binary"
+	"runtime"
 	"bytes"
 	"crypto"
 	stdecdsa "crypto/ecdsa"
@@ -152,6 +154,12 @@ func init() {
 		}
 		return fmt.Sprintf("ok(%d) %s", rd.served, hxv(sk))
 	}
+	// scalar arithmetic of ed25519/internal/edwards25519 through the verif hooks
+	replayers["c14.screduce"] = func(c *Ctx, a []string) string { return "ok " + hxv(ed25519.VerifScalarReduce(unhx(a[0]))) }
+	replayers["c14.scmuladd"] = func(c *Ctx, a []string) string {
+		return "ok " + hxv(ed25519.VerifScalarMulAdd(unhx(a[0]), unhx(a[1]), unhx(a[2])))
+	}
+	replayers["c14.sccanon"] = func(c *Ctx, a []string) string { return b2s(ed25519.VerifScalarCanonical(unhx(a[0]))) }
 	// c15.* : Ed25519 key blinding
 	// blind and context are handed over as adjacent parts of one caller buffer (blind = buf[:n], context = buf[n:])
 	adjacent := func(blind, ctx []byte) ([]byte, []byte) {
@@ -576,6 +584,7 @@ func runC14(c *Ctx) {
 		}
 		verify("smallS-1", ident, msg, mk(new(big.Int).Sub(t, big.NewInt(1))))
 	}
+	c14Scalars(c, r, L)
 	// entropy reader: consumed identically, error returned
 	for pos := 0; pos <= 34; pos++ {
 		for _, chunk := range []int{0, 1, 5} {
@@ -594,6 +603,134 @@ func runC14(c *Ctx) {
 		}
 	}
 	c.Run("c14.genkey", "-1", "0")
+}
+
+// c14Scalars: the limb arithmetic behind key derivation, signing and the canonical-S check, against math/big —
+// a sample through the model, and a bulk random search (every core) for the rare carry patterns a wrong carry chain
+// shows on (rates around 2^-25 are realistic for such bugs).
+func c14Scalars(c *Ctx, r *Rng, L *big.Int) {
+	le := func(b []byte) *big.Int {
+		x := make([]byte, len(b))
+		for i := range b {
+			x[len(b)-1-i] = b[i]
+		}
+		return new(big.Int).SetBytes(x)
+	}
+	le32 := func(x *big.Int) []byte {
+		b := x.FillBytes(make([]byte, 32))
+		for i, j := 0, 31; i < j; i, j = i+1, j-1 {
+			b[i], b[j] = b[j], b[i]
+		}
+		return b
+	}
+	// structured wide inputs: 21-bit limbs at their extremes, multiples of L around 2^252·k, all ones, powers of two
+	var wides [][]byte
+	limbVals := []uint32{0, 1, 0xfffff, 0x100000, 0x1fffff, 0x1ffffe}
+	for i := 0; i < c.Pick(400, 20000); i++ {
+		acc := new(big.Int)
+		for k := 23; k >= 0; k-- {
+			v := limbVals[r.IntN(len(limbVals))]
+			if r.IntN(3) == 0 {
+				v = r.Uint32() & 0x1fffff
+			}
+			acc.Lsh(acc, 21).Or(acc, big.NewInt(int64(v)))
+		}
+		acc.And(acc, new(big.Int).Sub(new(big.Int).Lsh(big.NewInt(1), 512), big.NewInt(1)))
+		w := acc.FillBytes(make([]byte, 64))
+		for i, j := 0, 63; i < j; i, j = i+1, j-1 {
+			w[i], w[j] = w[j], w[i]
+		}
+		wides = append(wides, w)
+	}
+	for k := 0; k < 64; k++ {
+		m := new(big.Int).Mul(L, new(big.Int).Lsh(big.NewInt(1), uint(4*k)))
+		for _, d := range []int64{-1, 0, 1} {
+			x := new(big.Int).Add(m, big.NewInt(d))
+			if x.Sign() >= 0 && x.BitLen() <= 512 {
+				w := x.FillBytes(make([]byte, 64))
+				for i, j := 0, 63; i < j; i, j = i+1, j-1 {
+					w[i], w[j] = w[j], w[i]
+				}
+				wides = append(wides, w)
+			}
+		}
+	}
+	wides = append(wides, bytes.Repeat([]byte{0xff}, 64), make([]byte, 64))
+	for _, w := range wides {
+		out := c.Run("c14.screduce", hx(w))
+		c.Count("scalar:reduce-structured")
+		c.Direct(out == "ok "+hxv(le32(new(big.Int).Mod(le(w), L))), "64-byte reduction modulo L differs from math/big", map[string]any{"wide": hx(w), "impl": out})
+	}
+	for i := 0; i < c.Pick(300, 20000); i++ {
+		a, b, d := r.Bytes(32), r.Bytes(32), r.Bytes(32)
+		if i%3 == 0 {
+			a, b = bytes.Repeat([]byte{0xff}, 32), le32(new(big.Int).Sub(L, big.NewInt(int64(1+r.IntN(3)))))
+		}
+		out := c.Run("c14.scmuladd", hx(a), hx(b), hx(d))
+		c.Count("scalar:muladd")
+		want := new(big.Int).Mod(new(big.Int).Add(new(big.Int).Mul(le(a), le(b)), le(d)), L)
+		c.Direct(out == "ok "+hxv(le32(want)), "a·b + c modulo L differs from math/big", map[string]any{"a": hx(a), "b": hx(b), "c": hx(d), "impl": out})
+	}
+	// canonical-scalar check on and around L and every byte-aligned neighbour
+	for _, d := range []int64{-2, -1, 0, 1, 2, 255, 256, 65536} {
+		for _, base := range []*big.Int{L, new(big.Int).Lsh(L, 1), new(big.Int).Lsh(big.NewInt(1), 252), new(big.Int).Sub(new(big.Int).Lsh(big.NewInt(1), 256), big.NewInt(70000)), big.NewInt(3)} {
+			x := new(big.Int).Add(base, big.NewInt(d))
+			if x.Sign() < 0 || x.BitLen() > 256 {
+				continue
+			}
+			out := c.Run("c14.sccanon", hx(le32(x)))
+			c.Count("scalar:canonical")
+			c.Direct(out == b2s(x.Cmp(L) < 0), "canonical-scalar verdict differs from `value < L`", map[string]any{"x": x.Text(16), "impl": out})
+		}
+	}
+	// bulk search (direct oracle only): independent generators per worker, first mismatch reported with its input
+	total := c.Pick(1<<25, 1<<29)
+	workers := runtime.NumCPU()
+	type miss struct{ w, got, want []byte }
+	found := parMap(workers, func(wk int) *miss {
+		rr := NewRng(c.Seed, fmt.Sprintf("c14-bulk-%d", wk))
+		buf := make([]byte, 64)
+		x, m, rev := new(big.Int), new(big.Int), make([]byte, 64)
+		var tmp [32]byte
+		for i := 0; i < total/workers; i++ {
+			// cheap generator: a xorshift-filled buffer re-keyed from the Rng every 4096 inputs
+			if i%4096 == 0 {
+				copy(buf, rr.Bytes(64))
+			}
+			for k := 0; k < 64; k += 8 {
+				v := binary.LittleEndian.Uint64(buf[k:])
+				v ^= v << 13
+				v ^= v >> 7
+				v ^= v << 17
+				binary.LittleEndian.PutUint64(buf[k:], v+uint64(i))
+			}
+			got := ed25519.VerifScalarReduce(buf)
+			for k := range buf {
+				rev[63-k] = buf[k]
+			}
+			m.Mod(x.SetBytes(rev), L)
+			m.FillBytes(tmp[:])
+			same := true
+			for k := 0; k < 32; k++ {
+				if got[k] != tmp[31-k] {
+					same = false
+					break
+				}
+			}
+			if !same {
+				return &miss{append([]byte{}, buf...), got, le32(m)}
+			}
+		}
+		return nil
+	})
+	c.hist["scalar:reduce-bulk"] += total
+	c.notes["c14_bulk_reductions"] = total
+	for _, f := range found {
+		if f != nil {
+			c.Direct(false, "64-byte reduction modulo L differs from math/big", map[string]any{"wide": hx(f.w), "impl": hx(f.got), "expected": hx(f.want)})
+		}
+	}
+	c.Direct(true, "bulk reduction search ran", nil)
 }
 
 func runC15(c *Ctx) {
